@@ -13,33 +13,19 @@
 (*   range: [none, units, ranges: <<[neg, b, e]>>]   crange: [none, units, start, stop, length] *)
 (*   date: <<y, mo, d, h, mi, s, offset seconds>> | None        ifrange: [etag, date]           *)
 (*   cc: [props: <<<<name, repr>>>>, items: dict pairs]   authz, wwwauth: [none, type, token, params] *)
+(*   second layer (HeaderCodec2.tla): cachecontrol: [cls, assigns, props: <<<<attr, [k, t]>>>>, items]; basic: auth shape;  *)
+(*   authparam: auth shape + cls; options2231: options shape                                     *)
 (* Verdict clauses: OutOfDomain (driver error, never a verdict), Raised, RoundTrip,             *)
 (* RoundTrip/multi-range-order, RedumpRaised, NormalForm.  Drift records compare the real dump  *)
 (* text and the real parse with the transcription in HeaderCodec.tla (never a verdict).         *)
-EXTENDS HeaderCodec, TLC, Json, IOUtils
+EXTENDS HeaderCodec2, TLC, Json, IOUtils
 
 Lines == ndJsonDeserialize(IOEnv.TRACE_FILE)
 VARIABLES l
 vars == <<l>>
 
-USERNAME == <<117, 115, 101, 114, 110, 97, 109, 101>>
-PASSWORD == <<112, 97, 115, 115, 119, 111, 114, 100>>
-BASIC == <<98, 97, 115, 105, 99>>
-RECURSIVE RStripEq(_)
-RStripEq(s) == IF s # <<>> /\ s[Len(s)] = EQ THEN RStripEq(SubSeq(s, 1, Len(s) - 1)) ELSE s
-Scalars(s) == \A i \in 1..Len(s) : IsScalar(s[i])
-
 DomIfRange(v) == IF v.date # NONE THEN v.etag = NONE /\ Len(v.date) = 7 /\ DomDate(v.date)
                  ELSE v.etag = NONE \/ (TextOK(v.etag) /\ ~Has(v.etag, DQ))
-DomAuth(c, v) ==
-  /\ ~v.none /\ IsToken(v.type) /\ ~HasUpper(v.type)
-  /\ IF c = "authz" /\ v.type = BASIC
-     THEN /\ v.token = NONE /\ Len(v.params) = 2 /\ v.params[1][1] = USERNAME /\ v.params[2][1] = PASSWORD
-          /\ Scalars(v.params[1][2]) /\ Scalars(v.params[2][2]) /\ ~Has(v.params[1][2], COLON)
-     ELSE IF v.token # NONE
-     THEN v.params = <<>> /\ TextOK(v.token) /\ Strip(v.token) = v.token /\ ~Has(RStripEq(v.token), EQ)
-     ELSE v.params # <<>> /\ DomDict(v.params) /\ \A i \in 1..Len(v.params) : v.params[i][2] # NONE
-
 Dom(c, v) ==
   CASE c \in {"quote", "quotent"} -> TextOK(v)
     [] c \in {"list", "set"} -> DomList(v)
@@ -54,21 +40,25 @@ Dom(c, v) ==
     [] c = "ifrange" -> DomIfRange(v)
     [] c = "cc" -> TRUE       \* v is what the property setters stored: the generator keeps the inputs inside the domain
     [] c \in {"authz", "wwwauth"} -> DomAuth(c, v)
+    [] c = "basic" -> v.type = BASIC /\ DomAuth("authz", v)
+    [] c = "authparam" -> v.cls \in {"authz", "wwwauth"} /\ ~(v.cls = "authz" /\ v.type = BASIC) /\ DomAuth(v.cls, v)
+    [] c = "options2231" -> DomOptions(v)
+    [] c = "cachecontrol" -> IF v.cls = "resp" THEN DomAssigns(v.assigns) ELSE v.cls = "req" /\ v.assigns = <<>> /\ DomDict(v.items)
     [] OTHER -> FALSE
 
 SamePairs(a, b) == Len(a) = Len(b) /\ PairSet(a) = PairSet(b)
 SameDate(a, b) == (a = NONE /\ b = NONE) \/ (a # NONE /\ b # NONE /\ Instant(a) = Instant(b))
 Same(c, a, b) ==
   CASE c \in {"dict", "csp"} -> SamePairs(a, b)
-    [] c = "options" -> a.main = b.main /\ SamePairs(a.opts, b.opts)
+    [] c \in {"options", "options2231"} -> a.main = b.main /\ SamePairs(a.opts, b.opts)
     [] c = "etags" -> SameETags(a, b)
     [] c = "date" -> SameDate(a, b)
     [] c = "ifrange" -> a.etag = b.etag /\ SameDate(a.date, b.date)
-    [] c = "cc" -> a.props = b.props /\ SamePairs(a.items, b.items)
-    [] c \in {"authz", "wwwauth"} -> a.none = b.none /\ a.type = b.type /\ a.token = b.token /\ SamePairs(a.params, b.params)
+    [] c \in {"cc", "cachecontrol"} -> a.props = b.props /\ SamePairs(a.items, b.items)
+    [] c \in {"authz", "wwwauth", "basic", "authparam"} -> a.none = b.none /\ a.type = b.type /\ a.token = b.token /\ SamePairs(a.params, b.params)
     [] OTHER -> a = b
 
-IsNone(c, p) == CASE c \in {"range", "crange", "authz", "wwwauth"} -> p.none
+IsNone(c, p) == CASE c \in {"range", "crange", "authz", "wwwauth", "basic", "authparam"} -> p.none
                   [] c \in {"age", "date"} -> p = NONE
                   [] OTHER -> FALSE
 
@@ -84,32 +74,39 @@ Verdict(r) ==
      ELSE "ok"
   ELSE IF r.op = "nf" THEN
      IF r.err # "" \/ IsNone(c, r.parsed) THEN "ok"
-     ELSE IF ~(IF c = "cc" THEN DomDict(r.parsed.items) ELSE Dom(c, r.parsed)) THEN "ok"
+     ELSE IF ~(IF c \in {"cc", "cachecontrol"} THEN DomDict(r.parsed.items) ELSE Dom(c, r.parsed)) THEN "ok"
      ELSE IF r.err2 # "" THEN "RedumpRaised"
      ELSE IF ~Same(c, r.reparsed, r.parsed) THEN "NormalForm"
      ELSE "ok"
   ELSE "ok"
 
 \* ---- model drift (never a verdict) -----------------------------------------------------------------
+SameAuth(a, b) == a.none = b.none /\ a.type = b.type /\ a.token = b.token /\ a.params = b.params
+CCIntUnmodelled(items) == \E i \in 1..Len(items) : items[i][2] # NONE /\ IntUnmodelled(items[i][2])
+\* the typed layer of a value: the setters produce the dict, the getters read it
+CCValueOK(v) == (v.cls = "resp" => CCApply(v.assigns, <<>>) = v.items) /\ (CCIntUnmodelled(v.items) \/ CCView(v.cls, v.items) = v.props)
 MDump(c, v) ==
   CASE c = "quote" -> Quote(v, TRUE)
     [] c = "quotent" -> Quote(v, FALSE)
     [] c \in {"list", "set"} -> DumpList(v)
     [] c = "dict" -> DumpDict(v)
-    [] c = "options" -> DumpOptions(v.main, v.opts)
+    [] c \in {"options", "options2231"} -> DumpOptions(v.main, v.opts)
     [] c = "range" -> DumpRange(v)
     [] c = "crange" -> DumpCR(v)
     [] c = "age" -> DumpAge(v)
     [] c = "csp" -> DumpCSP(v)
     [] c = "date" -> HttpDate(Instant(v))
-    [] c = "cc" -> DumpDict(v.items)
+    [] c \in {"cc", "cachecontrol"} -> DumpDict(v.items)
+    [] c \in {"authz", "wwwauth"} -> DumpAuth(c, v)
+    [] c = "basic" -> DumpAuth("authz", v)
+    [] c = "authparam" -> DumpAuth(v.cls, v)
     [] c = "ifrange" -> IF v.date # NONE THEN HttpDate(Instant(v.date)) ELSE IF v.etag # NONE THEN Wrap(v.etag) ELSE <<>>
 MParseOK(c, s, p) ==
   CASE c \in {"quote", "quotent"} -> p = Unquote(s)
     [] c = "list" -> p = ParseList(s)
-    [] c = "set" -> p = ParseList(s) \/ Len(p) < Len(ParseList(s))       \* HeaderSet may drop case-insensitive duplicates
+    [] c = "set" -> SetUnmodelled(ParseList(s)) \/ p = SetItems(ParseList(s))
     [] c = "dict" -> DictStar(s) \/ p = ParseDict(s)
-    [] c = "options" -> OptStar(s) \/ p = ParseOptions(s)
+    [] c \in {"options", "options2231"} -> Opt2Unmodelled(s) \/ p = ParseOptions2(s)
     [] c = "etags" -> EtagLF(s) \/ SameETags(p, ParseETags(s))
     [] c = "range" -> RangeUnmodelled(s) \/ p = ParseRange(s)
     [] c = "crange" -> p = ParseCR(s)
@@ -117,6 +114,10 @@ MParseOK(c, s, p) ==
     [] c = "csp" -> p = ParseCSP(s)
     [] c = "date" -> ~IsImf(s) \/ (p # NONE /\ Instant(p) = ParseImf(s) /\ p[7] = 0)
     [] c = "cc" -> DictStar(s) \/ p.items = ParseDict(s)
+    [] c = "cachecontrol" -> DictStar(s) \/ (p.items = ParseDict(s) /\ (CCIntUnmodelled(p.items) \/ p.props = CCView(p.cls, p.items)))
+    [] c \in {"authz", "wwwauth"} -> AuthUnmodelled(c, s) \/ SameAuth(p, ParseAuth(c, s))
+    [] c = "basic" -> AuthUnmodelled("authz", s) \/ SameAuth(p, ParseAuth("authz", s))
+    [] c = "authparam" -> AuthUnmodelled(p.cls, s) \/ SameAuth(p, ParseAuth(p.cls, s))
     [] c = "ifrange" -> LET u == LStrip(s)      \* an entity tag is quoted, a date is not; email.utils' lenient dates are not modelled
                             qt == u # <<>> /\ (u[1] = DQ \/ (Len(u) >= 3 /\ u[1] \in {87, 119} /\ u[2] = SLASH /\ u[3] = DQ)) IN
                         IF s = <<>> THEN p.etag = NONE /\ p.date = NONE
@@ -128,7 +129,7 @@ Small(s) == Len(s) <= 160
 DriftOK(r) ==
   LET c == r.codec IN
   IF r.err # "" \/ ~Small(r.dumped) \/ ~Small(r.redumped) THEN TRUE
-  ELSE IF r.op = "rt" THEN (c \in {"etags", "authz", "wwwauth"} \/ r.dumped = MDump(c, r.v)) /\ MParseOK(c, r.dumped, r.parsed)
+  ELSE IF r.op = "rt" THEN (c = "etags" \/ r.dumped = MDump(c, r.v)) /\ MParseOK(c, r.dumped, r.parsed) /\ (c = "cachecontrol" => CCValueOK(r.v))
   ELSE IF r.op = "nf" THEN ~Small(r.v) \/ MParseOK(c, r.v, r.parsed)
   ELSE TRUE
 
